@@ -690,6 +690,10 @@ def run(prog, rep, tier):
              'numbers only, not on the order in which the groups are listed')
     if check_default_axes_order_free(prog, rep) < 1:
         raise AnalysisError('AXIS-default-order-free: default branch of _combine_legs_new_axes not found')
+    rep.rule('AXES-parallel-sort', 'inner() re-orders axes_a by argsort(axes_b) when it normalises '
+             'axes_b to range(rank)')
+    if check_parallel_sort(prog, rep) < 1:
+        raise AnalysisError('AXES-parallel-sort: the joint re-ordering in inner() was not found')
     rep.rule('SPLICE-descending', 'one-for-many list splices at the loop variable run over '
              'descending positions')
     if check_splice_order(prog, rep) < 3:
@@ -881,6 +885,50 @@ def check_permute_compare(prog, rep):
                               'charge are rejected ("incompatible LegCharge") although the '
                               'charges agree index by index' % (key_text(st)[:60], first),
                               st.lineno)
+    return n
+
+
+
+# ------------------------------------------------------------------ AXES-parallel-sort
+def check_parallel_sort(prog, rep):
+    """inner(a, b, axes=(axes_a, axes_b)) may permute both axis lists together; it brings axes_b to
+    range(rank) and must move axes_a by the SAME re-ordering, i.e. the one that sorts axes_b:
+    new_axes_a[k] = axes_a[j] with axes_b[j] == k, j = argsort(axes_b)[k].  Indexing axes_a with
+    axes_b itself applies the inverse map (equal only for involutions: any rank-2 case)."""
+    m = prog.module(NPC)
+    n = 0
+    for qn in ('inner', ):
+        f = m.func(qn)
+        defs = {}
+        for st in ast.walk(f):
+            if isinstance(st, ast.Assign) and len(st.targets) == 1 and isinstance(
+                    st.targets[0], ast.Name):
+                defs.setdefault(st.targets[0].id, []).append(st.value)
+        for st in ast.walk(f):
+            if not (isinstance(st, ast.Assign) and len(st.targets) == 1 and
+                    unparse(st.targets[0]) == 'axes_a'):
+                continue
+            v = st.value
+            reads = set(names_in(v))
+            if 'axes_a' not in reads:
+                continue
+            txt = unparse(v)
+            via = [nm for nm in reads - {'axes_a', 'axes_b'} if any(
+                'axes_b' in names_in(d) for d in defs.get(nm, []))]
+            if 'axes_b' not in reads and not via:
+                continue
+            for nm in via:
+                txt += ' | ' + ' | '.join(unparse(d) for d in defs[nm])
+            n += 1
+            ok = ('argsort(axes_b' in txt or 'sorted(' in txt)
+            rep.instance('AXES-parallel-sort', {'function': qn, 'statement': key_text(st)[:80],
+                                                'ok': ok})
+            if not ok:
+                rep.violation('AXES-parallel-sort', m, qn, 'forward-permutation',
+                              '`%s` re-orders axes_a with axes_b itself; the re-ordering that '
+                              'brings axes_b to range(rank) is argsort(axes_b): the contracted '
+                              'axis pairs are mismatched unless the permutation is an involution'
+                              % key_text(st)[:80], st.lineno)
     return n
 
 
